@@ -27,7 +27,7 @@ def _nodes(labels, op):
 
 def structures():
     out = {}
-    for name, labels, op in (('S1', ['a'], 'io'), ('S2', ['a', 'b'], 'io'), ('S3', ['a', 'b', 'cc'], 'io'),
+    for name, labels, op in (('S1', ['a'], 'io'), ('S2', ['b', 'a'], 'io'), ('S3', ['cc', 'a', 'b'], 'io'),
                              ('S2m', ['a', 'b'], 'io2')):
         tpls, nodes = _nodes(labels, op)
         out[name] = {'ops': OPS, 'node_tpls': tpls, 'edge_tpls': {}, 'share': True,
@@ -37,11 +37,12 @@ def structures():
     nodes = dict(nodes, r='R')
     out['S2e'] = {'ops': OPS, 'node_tpls': tpls, 'edge_tpls': {}, 'share': True, 'op': 'io',
                   'circuit': {'name': 'net', 'nodes': nodes, 'edges': [['r/ro/z', 'a/io/u', None, {'weight': 2.0}]]}}
-    t1, n1 = _nodes(['a', 'b'], 'io')
+    t1, n1 = _nodes(['b', 'a'], 'io')
     t2 = {'Nc': [['io', {'x': 0.7}]], 'Nd': [['io', {'x': 0.9}]]}
+    # sub-circuits and nodes are declared in an order that differs from the sorted order of their labels
     out['H1'] = {'ops': OPS, 'node_tpls': dict(t1, **t2), 'edge_tpls': {}, 'share': True, 'op': 'io',
-                 'circuit': {'name': 'top', 'circuits': {'c1': {'name': 's1', 'nodes': n1, 'edges': []},
-                                                        'c2': {'name': 's2', 'nodes': {'a': 'Nc', 'b': 'Nd'}, 'edges': []}},
+                 'circuit': {'name': 'top', 'circuits': {'c2': {'name': 's2', 'nodes': {'a': 'Nc', 'b': 'Nd'}, 'edges': []},
+                                                        'c1': {'name': 's1', 'nodes': n1, 'edges': []}},
                              'edges': []}}
     out['H2'] = {'ops': OPS, 'node_tpls': t1, 'edge_tpls': {}, 'share': True, 'op': 'io',
                  'circuit': {'name': 'top2', 'circuits': {'d1': {'name': 'mid', 'circuits': {
